@@ -149,11 +149,14 @@ EbCodecV(e, vr) ==
                 /\ Clean(e) /\ AnyRepB(e, e.R) /\ BcIsDec(e.in, cl, PAbsB(e, e.R), c, e.fb)
                 /\ e.rerr = 0 /\ e.re = e.in /\ e.g = 1
             ELSE IF vr.unred /\ Unreduced(e) THEN
-                \* no range check: refused (no point / off the curve, as the arithmetic on the unreduced digits
-                \* sees it) or accepted with the unreduced digits as they are
+                \* no range check: refused, or accepted with the unreduced digits as they are when the pair reduced
+                \* modulo f is a point (with the requested bit): the arithmetic reduces, the copies do not
                 \/ Failed(e)
-                \/ /\ Clean(e) /\ e.R.c = 1 /\ FullLen(e, e.R.x) /\ FullLen(e, e.R.y) /\ Val(e.R.x) = RawX(e)
+                \/ /\ Clean(e) /\ e.R.c = 1 /\ FullLen(e, e.R.x) /\ FullLen(e, e.R.y) /\ Val(e.R.z) = <<1>>
+                   /\ Val(e.R.x) = RawX(e)
                    /\ (e.in[1] = 4 => Val(e.R.y) = RawY(e))
+                   /\ LET Q == EPt(GModPoly(Val(e.R.x), c.f), GModPoly(Val(e.R.y), c.f)) IN
+                      EOnCurve(Q, c) /\ (e.in[1] # 4 => BcBit(Q, c) = e.in[1] - 2)
             ELSE Failed(e)
       [] e.op = "eb_pck" ->
             LET Q == PAbsB(e, e.P) IN
